@@ -7,5 +7,5 @@ Extraction Language OCaml.
 Extraction "model.ml" Spec.parse SnapStack.strace SnapStack.sinit SnapStack.itrace SnapStack.ptrace SnapStack.pinit
   LineCol.line_col LineCol.line_of LineCol.span_lines LineCol.error_context LineCol.split_keep
   Pratt.parse Interp.iparse Gen.gparse SpecCert.wf_auto Opt.ochk_grammar Opt.ochk_rule OptSkip.ochk_skip
-  OptPass.pass_unroll OptPass.pass_inline_builtin OptPass.names_nodup OptPass.count_ok OptPass.gdepth
+  OptPass.pass_unroll OptPass.pass_inline_builtin OptPass.names_nodup OptPass.nodupN OptPass.count_ok OptPass.gdepth
   OptPassInline.builtins_plain SpecSyn.all_grammar OptPassSilent.pass_inline_silent OptPassSkip.pass_skip.
